@@ -17,6 +17,7 @@
 import XMT.GroupLemmas
 import XMT.ClientLoopSwitch
 import XMT.HostBox
+import XMT.GroupLoopLemmas
 namespace XMT.Props.C17
 open XMT XMT.Group
 
@@ -347,6 +348,300 @@ theorem listen_reports_failures (c : Client.Cfg) (q : Nat → Nat) (script : Nat
 -- concrete: exchange fails, connect fails, exchange succeeds, … : reports false, true, true, false
 example : (Client.run { sleep := 1000000, jitter := 0, kill := none, work := none, off := 0 } (fun _ => 0)
     (fun k => [Client.Res.sessErr, .fail, .ok, .ok].getD k .fail) 4 { now := 0 }).sw = [false, true, true, false] := by decide
+
+
+/-! ### s3: the connection loop COMPOSED with the multi-group profile (XMT/GroupLoop.lean)
+
+`GroupLoop.session g ds script` = what `connectContextInner` does with the profile (`Next`), then the
+loop `(*Session).listen` with `s.p = g`, the connector outcomes `script` and ONE PRNG word stream `ds`.
+`HostsNE g` = every group names a host and no host is the empty string.  `OwnConn g cn` = attempt
+`cn` was made with a host, the wrapper and the transform of ONE entry of `g`, which was the active
+one.  `Link g a b` (consecutive attempts) = the Switch call between them was given "`a` failed", the two
+active entries are related by one call of `Group.switch` with that flag, host / wrapper / transform are
+kept iff it reported no change, and a reported change forgives one error.  `GiveUp cn` = a connect
+error met with more than `maxErrors` on the counter, or a failed exchange that takes it above. -/
+
+open XMT.GroupLoop in
+/-- One turn of the real loop on a group IS one call of the selector function: `Group.switch` is
+given the failure flag of the previous attempt, the loop re-reads host / wrapper / transform (`Next`)
+exactly when it reports a change and keeps them otherwise, and connects through the active entry. -/
+theorem loop_turn_is_switch (st : St) (r : Res) (hinv : Inv st) (hh : HostsNE st.g) :
+    ∃ g1 b ds1 st' cont cn, switch st.g st.e st.ds = .ok (g1, b, ds1) ∧ turn st r = .ok (st', cont) ∧
+      st'.g = g1 ∧ st'.trace = st.trace ++ [cn] ∧ cn.swArg = st.e ∧ cn.swRes = b ∧ cn.cur = g1.curPtr ∧
+      st'.e = (cn.res != .ok) ∧
+      (b = false → st'.host = st.host ∧ st'.w = st.w ∧ st'.t = st.t ∧ cn.errs = st.errors ∧ g1 = st.g) ∧
+      (b = true → cn.errs = errDec st.errors ∧ g1.curPtr ≠ st.g.curPtr) ∧
+      (∃ c ∈ st.g.entries, g1.cur = some c ∧ cn.host ∈ c.hosts ∧ cn.w = c.w ∧ cn.t = c.t) ∧
+      (cont = false ↔ GiveUp cn) := by
+  obtain ⟨g1, b, ds1, st', cont, cn, h1, h2, h3, _, _, h6, h7, h8, h9, _, _, _, h13, h14, h15,
+    ⟨c, hc1, hc2, _, hc4, hc5, hc6⟩, h17, _⟩ := turn_spec st r hinv hh
+  exact ⟨g1, b, ds1, st', cont, cn, h1, h2, h3, h6, h7, h8, h9, h13, h14, h15, ⟨c, hc1, hc2, hc4, hc5, hc6⟩, h17⟩
+
+open XMT.GroupLoop in
+/-- The composition, for every group (any number of entries, any selector value, fresh or used), every
+PRNG word stream and every history of connector outcomes: nothing panics; the group's entries and
+selector never change; EVERY connection attempt is made with a host, the wrapper and the transform of
+one configured entry, the active one; the first Switch call is told "no failure"; every two consecutive
+attempts are linked by one call of `Group.switch` with the failure flag of the earlier one (so each
+selector theorem above applies turn by turn — see `loop_link_contract`); one attempt is made per script
+element until the loop gives up, and it gives up at the first attempt that meets `GiveUp`, never
+before. -/
+theorem loop_composition (g : Group) (hwf : g.WF) (hne : g.entries ≠ []) (hh : HostsNE g)
+    (ds : List Nat) (script : List Res) :
+    ∃ st cont, session g ds script = .ok (st, cont) ∧ st.g.entries = g.entries ∧ st.g.sel = g.sel ∧
+      (∀ cn ∈ st.trace, OwnConn g cn) ∧ Adj (Link g) st.trace ∧
+      (∀ cn, st.trace.head? = some cn → cn.swArg = false ∧ cn.errs = 0) ∧
+      st.trace.length ≤ script.length ∧
+      (cont = true → st.trace.length = script.length ∧ ∀ cn ∈ st.trace, ¬ GiveUp cn) ∧
+      (cont = false → ∃ init last, st.trace = init ++ [last] ∧ GiveUp last ∧ ∀ cn ∈ init, ¬ GiveUp cn) := by
+  obtain ⟨st0, hst, hinv, he, hs, htr, hee, herr, _⟩ := start_spec g ds hwf hne hh
+  have hh0 : HostsNE st0.g := by unfold HostsNE; rw [he]; exact hh
+  obtain ⟨st, cont, hrun, he', hs', hadj, hown, ⟨more, hmore, hlen, hfull⟩, hgo, hstop, hfirst⟩ :=
+    GroupLoop.run_spec g script st0 hinv hh0 he hs (by rw [htr]; trivial)
+      (by intro a ha; rw [htr] at ha; cases ha) (by intro cn hcn; rw [htr] at hcn; cases hcn)
+      (by intro cn hcn; rw [htr] at hcn; cases hcn)
+  rw [htr, List.nil_append] at hmore
+  refine ⟨st, cont, ?_, he', hs', hown, hadj, ?_, by rw [hmore]; exact hlen, ?_, hstop⟩
+  · unfold session; simp only [hst]; exact hrun
+  · intro cn hcn
+    obtain ⟨h1, h2⟩ := hfirst htr cn hcn
+    refine ⟨by rw [h1, hee], ?_⟩
+    rw [h2, herr]; unfold errDec; split <;> simp
+  · intro hc; exact ⟨by rw [hmore]; exact hfull hc, hgo hc⟩
+
+open XMT.GroupLoop in
+/-- The selector contracts, turn by turn of the loop.  For two consecutive attempts `a`, `b` on a group
+with distinct entries, `a` made on the entry at position `k`, with `succ` = the entry at position
+`(k+1) mod n`:  round-robin goes to `succ` whatever happened;  last-valid stays (no change reported,
+hence same host, wrapper, transform) after a success and goes to `succ` after a failure;
+semi-round-robin either stays or goes to `succ`;  semi-last-valid goes to `succ` after a failure and
+otherwise either stays or goes to `succ`;  (random / semi-random: `b` is made on a member entry, by
+`loop_composition`, and stays iff no change is reported). -/
+theorem loop_link_contract (g : Group) (hnd : (g.entries.map (·.ptr)).Nodup) (a b : Conn) (h : Link g a b) :
+    b.swArg = (a.res != .ok) ∧
+    (b.swRes = false → b.cur = a.cur ∧ b.host = a.host ∧ b.w = a.w ∧ b.t = a.t) ∧
+    ∃ k ca, g.entries[k]? = some ca ∧ a.cur = some ca.ptr ∧
+      (Plain g.sel → b.cur = (g.entries[(k+1) % g.entries.length]?).map (·.ptr)) ∧
+      (g.sel = selLastValid →
+        (a.res = .ok → b.swRes = false) ∧
+        (a.res ≠ .ok → b.cur = (g.entries[(k+1) % g.entries.length]?).map (·.ptr))) ∧
+      (g.sel = selSemiRoundRobin →
+        b.swRes = false ∨ b.cur = (g.entries[(k+1) % g.entries.length]?).map (·.ptr)) ∧
+      (g.sel = selSemiLastValid →
+        (a.res ≠ .ok → b.cur = (g.entries[(k+1) % g.entries.length]?).map (·.ptr)) ∧
+        (b.swRes = false ∨ b.cur = (g.entries[(k+1) % g.entries.length]?).map (·.ptr))) := by
+  obtain ⟨harg, ⟨ca, cb, ds, ds', hca, hcb, hac, hbc, hsw⟩, hstay, _⟩ := h
+  obtain ⟨k, hk⟩ := mem_getElem? g.entries ca hca
+  have hwf : ({ g with cur := some ca } : Group).WF := ⟨hnd, fun c hc => by cases hc; exact hca⟩
+  have succ_of : g.entries[(k+1) % g.entries.length]? = some cb →
+      b.cur = (g.entries[(k+1) % g.entries.length]?).map (·.ptr) := by
+    intro hx; rw [hx, hbc]; rfl
+  have hne : (a.res ≠ .ok) → b.swArg = true := by
+    intro hr; rw [harg]; cases hres : a.res <;> simp_all
+  have heq : (a.res = .ok) → b.swArg = false := by
+    intro hr; rw [harg, hr]; rfl
+  refine ⟨harg, fun hb => ⟨(hstay hb).1, (hstay hb).2.1, (hstay hb).2.2.1, (hstay hb).2.2.2.1⟩, k, ca, hk, hac,
+    ?_, ?_, ?_, ?_⟩
+  · intro hp
+    have := roundRobin_step { g with cur := some ca } hwf hp k ca hk rfl b.swArg ds
+    exact succ_of (link_rot g ca cb k b.swArg b.swRes ds ds ds' hsw this).1
+  · intro hs
+    have hstep := lastValid_step { g with cur := some ca } hwf hs k ca hk rfl b.swArg ds
+    refine ⟨fun hr => ?_, fun hr => ?_⟩
+    · rw [heq hr] at hstep hsw
+      exact (link_stay g ca cb false b.swRes ds ds ds' hsw (by simpa using hstep)).2
+    · rw [hne hr] at hstep hsw
+      exact succ_of (link_rot g ca cb k true b.swRes ds ds ds' hsw (by simpa using hstep)).1
+  · intro hs
+    have hstep := semiRoundRobin_refines { g with cur := some ca } hwf hs k ca hk rfl b.swArg ds
+    cases hd : (fastRandN (pop ds).1 semiN != 0) with
+    | true =>
+      rw [hd] at hstep
+      exact Or.inl (link_stay g ca cb b.swArg b.swRes ds (pop ds).2 ds' hsw (by simpa using hstep)).2
+    | false =>
+      rw [hd] at hstep
+      exact Or.inr (succ_of (link_rot g ca cb k b.swArg b.swRes ds (pop ds).2 ds' hsw (by simpa using hstep)).1)
+  · intro hs
+    have hstep := semiLastValid_refines { g with cur := some ca } hwf hs k ca hk rfl b.swArg ds
+    have hfail : b.swArg = true → b.cur = (g.entries[(k+1) % g.entries.length]?).map (·.ptr) := by
+      intro he
+      rw [he] at hstep hsw
+      exact succ_of (link_rot g ca cb k true b.swRes ds ds ds' hsw (by simpa using hstep)).1
+    refine ⟨fun hr => hfail (hne hr), ?_⟩
+    cases he : b.swArg with
+    | true => exact Or.inr (hfail he)
+    | false =>
+      rw [he] at hstep hsw
+      simp only [Bool.false_eq_true, if_false] at hstep
+      cases hd : (fastRandN (pop ds).1 semiN != 0) with
+      | true =>
+        rw [hd] at hstep
+        exact Or.inl (link_stay g ca cb false b.swRes ds (pop ds).2 ds' hsw (by simpa using hstep)).2
+      | false =>
+        rw [hd] at hstep
+        exact Or.inr (succ_of (link_rot g ca cb k false b.swRes ds (pop ds).2 ds' hsw (by simpa using hstep)).1)
+
+open XMT.GroupLoop in
+/-- Round-robin over the whole life of a Session, on a freshly built group: the registration uses
+entry 0 (the highest weight) and connection attempt `i` of the loop (i = 0, 1, …) goes to the entry at
+position `(i + 1) mod n` — cyclic order, every group before any repeats — whatever the connector
+outcomes and PRNG words are; Switch reports a change in every turn (unless there is a single entry). -/
+theorem loop_roundRobin_order (g : Group) (hwf : g.WF) (hp : Plain g.sel) (hc : g.cur = none)
+    (hne : g.entries ≠ []) (hh : HostsNE g) (ds : List Nat) (script : List Res) :
+    ∃ st cont, session g ds script = .ok (st, cont) ∧
+      ∀ i cn, st.trace[i]? = some cn →
+        cn.cur = (g.entries[(i + 1) % g.entries.length]?).map (·.ptr) ∧
+        cn.swRes = decide (g.entries.length ≠ 1) := by
+  obtain ⟨st0, hst, hinv, he, hs, htr, _, _, _⟩ := start_spec g ds hwf hne hh
+  have hh0 : HostsNE st0.g := by unfold HostsNE; rw [he]; exact hh
+  obtain ⟨e0, tl, hent⟩ := List.exists_cons_of_ne_nil hne
+  have hk0 : g.entries[0]? = some e0 := by rw [hent]; rfl
+  -- what `start` did with the group: `Next` → `init` → entry 0
+  have hg0 : st0.g.cur = some e0 := by
+    have hi := init_first g ds hc hne (not_random_of g hp.2.2.2.2 hp.2.2.1)
+    unfold start gNext at hst
+    rw [hi] at hst
+    simp only [hk0] at hst
+    cases hn : e0.next ds with
+    | panic s => rw [hn] at hst; cases hst
+    | ok x =>
+      rw [hn] at hst
+      obtain ⟨⟨h, w, t⟩, ds'⟩ := x
+      simp only [Outcome.ok.injEq] at hst
+      rw [← hst] <;> exact hk0
+  obtain ⟨st, cont, more, hrun, hmore, hall⟩ := run_plain g hp script st0 hinv hh0 he hs 0 e0 hk0 hg0
+  refine ⟨st, cont, by unfold session; simp only [hst]; exact hrun, ?_⟩
+  intro i cn hi
+  rw [hmore, htr, List.nil_append] at hi
+  have := hall i cn hi
+  rw [show 0 + 1 + i = i + 1 by omega] at this
+  exact this
+
+open XMT.GroupLoop in
+/-- The error budget, counted in consecutive failures.  In any run, take a stretch `a :: l` of
+consecutive FAILED attempts (connect error or failed exchange) at the end of the trace, during which
+Switch reported no change (so nothing was forgiven): the counter met by the (i+1)-th of them is
+`a.errs + i + 1`, and while the loop is still going the stretch holds at most
+`maxErrors + 1 - a.errs` attempts (`maxErrors + 1` = 6 from a clean counter): one more unforgiven
+connect failure and `GiveUp` holds, i.e. the loop ends there (`loop_composition`). -/
+theorem loop_budget_no_switch (g : Group) (hwf : g.WF) (hne : g.entries ≠ []) (hh : HostsNE g)
+    (ds : List Nat) (script : List Res) (st : St) (cont : Bool)
+    (hrun : session g ds script = .ok (st, cont)) (pre l : List Conn) (a : Conn)
+    (htr : st.trace = pre ++ a :: l) (hfail : ∀ c ∈ a :: l, c.res ≠ .ok)
+    (hns : ∀ c ∈ l, c.swRes = false) :
+    (∀ i c, l[i]? = some c → c.errs = a.errs + i + 1) ∧
+    (cont = true → a.errs + l.length ≤ maxErrors) := by
+  obtain ⟨st', cont', hrun', _, _, _, hadj, _, _, hgo, _⟩ := loop_composition g hwf hne hh ds script
+  rw [hrun] at hrun'
+  simp only [Outcome.ok.injEq, Prod.mk.injEq] at hrun'
+  obtain ⟨rfl, rfl⟩ := hrun'
+  rw [htr] at hadj
+  have hchain := chain_errs g l a (Adj_suffix _ pre _ hadj) hns hfail
+  refine ⟨hchain, fun hc => ?_⟩
+  obtain ⟨_, hng⟩ := hgo hc
+  -- the last attempt of the stretch did not meet GiveUp
+  have key : ∀ z : Conn, z ∈ st.trace → z.res ≠ .ok → z.errs ≤ maxErrors := by
+    intro z hz hr
+    have h := hng z hz
+    unfold GiveUp at h
+    cases hres : z.res with
+    | ok => exact absurd hres hr
+    | fail =>
+      rcases Nat.lt_or_ge maxErrors z.errs with hlt | hge
+      · exact absurd (Or.inl ⟨hres, hlt⟩) h
+      · exact hge
+    | sessErr =>
+      rcases Nat.lt_or_ge maxErrors (z.errs + 1) with hlt | hge
+      · exact absurd (Or.inr ⟨hres, hlt⟩) h
+      · omega
+  cases hl : l.length with
+  | zero =>
+    have := key a (by rw [htr]; simp) (hfail a (by simp))
+    omega
+  | succ n =>
+    have hlt : n < l.length := by omega
+    have hz : l[n]? = some l[n] := List.getElem?_eq_getElem hlt
+    have hmem : l[n] ∈ l := List.getElem_mem hlt
+    have h1 := hchain n l[n] hz
+    have h2 := key l[n] (by rw [htr]; simp [hmem]) (hfail l[n] (List.mem_cons_of_mem _ hmem))
+    omega
+
+/-! non-vacuity: the three-group example profile, every group with hosts -/
+
+example : GroupLoop.HostsNE (exG selLastValid) ∧ (exG selLastValid).WF ∧ (exG selLastValid).entries ≠ [] := by
+  refine ⟨by decide, ⟨by decide, fun c h => by cases h⟩, by decide⟩
+
+/-- last-valid in the loop: registration on ptr 1 (weight 100); ok, ok keep it; a connect failure moves
+the loop to ptr 2 with THAT entry's wrapper 12 / transform 22 and forgives nothing at errors 0… -/
+example : (match GroupLoop.session (exG selLastValid) [] [.ok, .fail, .ok, .sessErr, .ok] with
+    | .ok (st, cont) =>
+      (st.trace.map (fun c => [c.swArg.toNat, c.swRes.toNat, (c.cur.map (· + 1)).getD 0, c.w, c.t, c.errs]), cont)
+    | .panic _ => ([], false)) =
+    -- [Switch argument, Switch result, ptr + 1, wrapper, transform, errors]
+    (([[0, 0, 2, 11, 21, 0], [0, 0, 2, 11, 21, 0], [1, 1, 3, 12, 22, 0], [0, 0, 3, 12, 22, 0], [1, 1, 1, 10, 20, 0]],
+      true) : List (List Nat) × Bool) := by
+  decide
+
+/-- round-robin in the loop: 2 → 0 → 1 → 2 (ptrs; order by weight is 1, 2, 0) -/
+example : (match GroupLoop.session (exG selRoundRobin) [] [.ok, .fail, .fail, .ok] with
+    | .ok (st, _) => st.trace.map (·.cur)
+    | .panic _ => []) = [some 2, some 0, some 1, some 2] := by
+  decide
+
+/-- a single-entry group never reports a change, so nothing is forgiven: the loop gives up at the
+7th consecutive connect failure (counter 6 > maxErrors = 5), not before -/
+example : (match GroupLoop.session { cur := none, entries := [exE 0 5], sel := selRoundRobin } []
+      (List.replicate 9 .fail) with
+    | .ok (st, cont) => (st.trace.map (·.errs), cont)
+    | .panic _ => ([], true)) = (([0, 1, 2, 3, 4, 5, 6], false) : List Nat × Bool) := by
+  decide
+
+
+/-- a reported switch forgives one error (by design of `listen`): round-robin over three groups and 20
+connect failures in a row — the counter is never above 1 when Connect is called and the loop is
+still going; "gives up after N consecutive failures" holds for stretches without a reported switch
+only (previous example) -/
+example : (match GroupLoop.session (exG selRoundRobin) [] (List.replicate 20 .fail) with
+    | .ok (st, cont) => (st.trace.length, st.trace.all (fun c => decide (c.errs ≤ 1)), cont)
+    | .panic _ => (0, false, false)) = ((20, true, true) : Nat × Bool × Bool) := by
+  decide
+
+/-! ### s3: the points the hypotheses above exclude -/
+
+/-- `g.entries ≠ []` (hypothesis of `accessor_own`, `next_own`, `random_picks_entry`, `first_use`): a
+Group without entries (the zero value `new(cfg.Group)`; `Build` never returns one: it hands back nil
+for no group and the bare profile for one) answers EVERY call with the documented default —
+Switch false, Next ("", nil, nil), Sleep / Jitter -1, no kill date, no work hours, TrustedKey =
+"key not empty", ErrNotAConnector / ErrNotAListener — draws no PRNG word, stays as it is, and does
+not panic, whatever its selector byte is. -/
+theorem empty_group_defaults (sel : Nat) (op : Op) (ds : List Nat) :
+    step { cur := none, entries := [], sel := sel } op ds =
+      .ok ({ cur := none, entries := [], sel := sel }, obsNil op, ds) := by
+  cases op <;> rfl
+
+example : obsNil .next = .next [] 0 0 ∧ obsNil .sleep = .sleep (-1) ∧ obsNil (.trusted false 7) = .trusted true := by
+  decide
+
+open XMT.GroupLoop in
+/-- `HostsNE` (hypothesis of the loop theorems) cannot be dropped: with a group that names no host the
+loop keeps the host of the group it was on before (`if len(h) > 0 { s.host.Set(h) }`) and connects to
+it with the NEW group's wrapper, transform and connector.  Witness: round-robin over exE 1 (hosts
+[01], [41]) and a hostless entry; the first attempt of the loop is made on the hostless entry (ptr 7,
+wrapper 17, transform 27) with the host [01] of entry 1.  (No panic; observed on the real loop by the
+harness, count `s3:hostless:kept-foreign-host`.) -/
+theorem loop_hostless_group_keeps_foreign_host :
+    let hostless : Entry := { exE 7 50 with hosts := [] }
+    let g : Group := { cur := none, entries := [exE 1 200, hostless], sel := selRoundRobin }
+    g.WF ∧ ¬ HostsNE g ∧
+    ∃ st cont cn, session g [] [.ok, .ok] = .ok (st, cont) ∧ st.trace[0]? = some cn ∧
+      cn.cur = some 7 ∧ cn.w = 17 ∧ cn.t = 27 ∧ cn.host = [1] ∧ ¬ OwnConn g cn := by
+  refine ⟨⟨by decide, fun c h => by cases h⟩, by decide, ?_⟩
+  refine ⟨_, _, _, rfl, rfl, by decide, by decide, by decide, by decide, ?_⟩
+  rintro ⟨c, hc, hcur, hhost, _, _⟩
+  simp only [List.mem_cons, List.not_mem_nil, or_false] at hc
+  rcases hc with rfl | rfl
+  · revert hcur; decide
+  · revert hhost; decide
 
 /-! ### the host container of the `ews && implant` build (c2/x_ews.go; model XMT/HostBox.lean,
 tied to the real file by the differential group `ews`: the harness mounts a copy of the CURRENT
